@@ -69,6 +69,7 @@ fn c07_cfg(t: Tier) -> HistCfg {
 fn c04_cfg(t: Tier) -> HistCfg {
     let mut c = general(t);
     c.zeros = false;
+    c.zeros_share = 3;
     c.boundary_share = 1;
     c.w_rebuild = 0;
     c.w_read = 0;
@@ -203,6 +204,8 @@ fn record_facts(st: &mut Stats, f: &Facts, h: &History) {
     st.add("remapped_adds", f.remapped_adds);
     st.add("tranche_ambiguous", f.tranche_ambiguous);
     st.add("c04/strict_pairs", f.strict_pairs);
+    st.add("ticket_queue/matches_predicted_exactly", f.tq_predicted);
+    st.add("ticket_queue/matches_not_predicted", f.tq_mismatch);
     if f.boundary {
         st.count("hist/boundary_profile");
     } else {
